@@ -1132,6 +1132,10 @@ func (x *Exec) fpBits(st *State, f string) string {
 	b := x.vc.Declare("fbits", &Sort{K: SBV, Bits: 64})
 	x.vc.AddAxiom("fbits."+b, "(assert (= ((_ to_fp 11 53) "+b+") "+f+"))", b)
 	x.fpBitsMemo[f] = b
+	if x.vc.fpBits == nil {
+		x.vc.fpBits = map[string]string{}
+	}
+	x.vc.fpBits[f] = b // replays read the bit pattern the path actually used (matters for NaNs)
 	return b
 }
 
